@@ -214,7 +214,9 @@ def obligations(tier):
     out = []
     for op, (sig, _) in OPS.items():
         ns = sig.count("s")
-        lens = list(itertools.product(range(L + 1), repeat=ns)) if ns else [()]
+        # operand lengths: up to 3 (quick) / 4 (thorough) for one or two string operands, up to 2 / 3 for three
+        Lop = (L if ns >= 3 else L + 1)
+        lens = list(itertools.product(range(Lop + 1), repeat=ns)) if ns else [()]
         if op == "StrReplace" and not quick:
             lens = [l for l in lens if l[1] <= 2 and l[2] <= 2]
         if op == "StrConcat3":
@@ -229,7 +231,7 @@ def obligations(tier):
         out.append((f"lit:{k}", {"leg": "lit", "k": k}))
     for k in range(len(INTS)):
         out.append((f"conc:IntToStr:{k}", {"leg": "conc", "k": k}))
-    out.append(("lemma:references", {"leg": "lemma", "L": L}))
+    out.append(("lemma:references", {"leg": "lemma", "L": L + 1}))
     return out
 
 
@@ -488,7 +490,7 @@ def check(prop, tier, cap, only=None, procs=None, list_only=False, t0=None):
     quick = tier == "quick"
     return common.finish(
         prop, tier, "translation_validation", results, t0, functions=FUNCTIONS,
-        bounds={"string_length": "every operand length 0..2 (quick) / 0..3 (thorough), one obligation per length combination", "code_points": "0..0x2FFFF (Z3's character sort), all symbolic",
+        bounds={"string_length": "every operand length 0..3 (quick) / 0..4 (thorough) for operations with one or two string operands, 0..2 / 0..3 for three; one obligation per length combination", "code_points": "0..0x2FFFF (Z3's character sort), all symbolic",
                 "index_operands": "every 64-bit value (symbolic)", "int_to_str": "values with at most 4 decimal digits", "literals": f"{len(LITS)} boundary literals",
                 "outside": "operation trees deeper than one operation (StrConcat of three operands included); code points above 0x2FFFF; StrIsDigit (no solver translation exists)"},
         assumptions=["string values are shadows of concrete length with symbolic code points; index operands are symbolic 64-bit constants",
